@@ -8,6 +8,8 @@ props = [json.loads(l) for l in open(os.path.join(V, 'properties.jsonl'))]
 import sys
 sys.path.insert(0, os.path.dirname(os.path.abspath(__file__)))
 from claims import CLAIMED, NOT_APPLICABLE
+from claims_s3 import S3
+import re
 PENDING = 'check not built yet (work in progress; DESIGN.md section 10 gives the order of work)'
 
 m = {"version": 1, "setup_cmd": "./setup.sh",
@@ -22,6 +24,13 @@ for p in props:
     i = p['id']
     if i in CLAIMED:
         tech, text, note, ref = CLAIMED[i]
+        note = note + ' ' + S3.get(i, '')
+        ref = ref + ', 11.8'
+        try:   # the number of audited theorems is a measured quantity: take it from the last evidence file
+            n = json.load(open(os.path.join(V, 'evidence', i + '.json')))['coverage']['obligations']
+            text = re.sub(r'^(Proof(?: \(partial\))?): \d+ theorems', lambda m: '%s: %d theorems' % (m.group(1), n), text)
+        except Exception:
+            pass
         m['checks'].append({"property_id": i, "quick_cmd": "./check %s quick" % i, "thorough_cmd": "./check %s thorough" % i,
                             "evidence_file": "evidence/%s.json" % i, "replay_cmd_template": "./check %s --replay {path}" % i,
                             "engine": "lean4-proof+correspondence",
